@@ -1,3 +1,4 @@
+import Mutiny.Model.U32
 /-!
 # M1 `Ring` — small-step interleaving model of `AtomicMove<T, N>`
   (`/repo/src/ogre_std/ogre_queues/atomic/atomic_move.rs`)
@@ -69,8 +70,10 @@ inductive Loc where
   | cChkTail  (h : Nat) (w : Bool)
   | cRead     (id : Nat)
   | cRelease  (id v : Nat)
-  -- `available_elements_count`
+  -- `available_elements_count`: load `tail` …
   | lLen
+  /-- … then load `head` (`am.len.head`); the answer is the `u32` difference of the two loads -/
+  | lLenH (tl : Nat)
   deriving DecidableEq, Repr
 
 structure St where
@@ -155,8 +158,11 @@ def step (s : St) (t : Nat) : St :=
       if s.head = id then
         setThr { s with head := id + 1, delivered := s.delivered ++ [(t, id, v)] } t (.done (.got v))
       else s
-  -- `tail.load() - head.load()`
-  | .lLen => setThr s t (.done (.len (s.tail - s.head)))
+  -- `tail.load()` …
+  | .lLen => setThr s t (.lLenH s.tail)
+  -- … `.overflowing_sub(head.load()).0`: two loads at two instants; when receives moved `head` past the loaded `tail` in
+  -- between, the `u32` difference wraps (the code does answer 4294967295 then)
+  | .lLenH tl => setThr s t (.done (.len (U32.wsub (U32.wrap tl) (U32.wrap s.head))))
 
 /-- actions of the environment + scheduler -/
 inductive Act where
@@ -221,6 +227,7 @@ def tagOf : Loc → Option (String × Nat)
   | .cRead id          => some ("am.c.read", id)
   | .cRelease id _     => some ("am.c.release", id)
   | .lLen              => some ("am.len", 0)
+  | .lLenH _           => some ("am.len.head", 0)
   | _ => none
 
 def Res.show : Res → String
